@@ -241,8 +241,13 @@ class _AsyncioWrapper(object):
         object.__setattr__(self, "_mock_fn", mock_fn)
 
     def __call__(self, *args, **kwargs):
+        mock_fn = self._mock_fn
+        if isinstance(mock_fn, AsyncAndSyncPairDecorator):
+            # see _AsynqWrapper.__call__: the coroutine may be awaited in asyncio mode
+            mock_fn = mock_fn.sync_fn
+
         async def async_wrapper():
-            return self._mock_fn(*args, **kwargs)
+            return mock_fn(*args, **kwargs)
 
         return async_wrapper()
 
